@@ -322,11 +322,16 @@ def main():
                 open(os.path.join(root, "w", rel), "wb").write(GO("p"))
             os.symlink("real", os.path.join(root, "w", "link"))
             os.symlink("real/sub", os.path.join(root, "w", "deep"))
+            if nm.startswith("hard link"):
+                # two names of one inode are two regular files: each is processed (once)
+                os.link(os.path.join(root, "w", "real", "a.go"), os.path.join(root, "w", "hard.go"))
+                os.link(os.path.join(root, "w", "real", "sub", "x.go"), os.path.join(root, "w", "real", "sub", "z.go"))
             open(os.path.join(root, "p.patch"), "wb").write(PATCH)
             cwd = os.path.join(root, "w", sub) if sub else os.path.join(root, "w")
             env = dict(os.environ, PWD=cwd) if use_pwd else None
             rc, out, err = vlib.run_gopatch(["-p", os.path.join(root, "p.patch"), "-v"] + [a.replace("<W>", os.path.join(root, "w")) for a in args], cwd, env=env)
-            counts = {rel: open(os.path.join(root, "w", rel), "rb").read().count(b"+ 1") for rel in ("real/a.go", "real/sub/x.go", "real/sub/y.go", "top.go")}
+            rels = ("real/a.go", "real/sub/x.go", "real/sub/y.go", "top.go") + (("hard.go", "real/sub/z.go") if nm.startswith("hard link") else ())
+            counts = {rel: open(os.path.join(root, "w", rel), "rb").read().count(b"+ 1") for rel in rels}
             return {"rc": rc, "stderr": err.decode("utf-8", "replace")[:500], "stdout": out.decode("utf-8", "replace")[:1500], "counts": counts}
         finally:
             shutil.rmtree(root, ignore_errors=True)
@@ -344,6 +349,10 @@ def main():
         ("working directory entered through a link, a file", ["sub/x.go", "./sub"], "link", True, SUB),
         ("working directory entered through a deeper link", ["."], "deep", True, SUB),
         ("working directory through a link, PWD not set to it", ["./..."], "link", False, ALL_REAL),
+        ("hard links: the tree", ["./..."], "", False, {"real/a.go": 1, "real/sub/x.go": 1, "real/sub/y.go": 1, "top.go": 1, "hard.go": 1, "real/sub/z.go": 1}),
+        ("hard links: both names given", ["hard.go", "real/a.go", "real/sub"], "", False,
+         {"real/a.go": 1, "real/sub/x.go": 1, "real/sub/y.go": 1, "top.go": 0, "hard.go": 1, "real/sub/z.go": 1}),
+        ("hard links: one name given", ["hard.go"], "", False, {"real/a.go": 0, "real/sub/x.go": 0, "real/sub/y.go": 0, "top.go": 0, "hard.go": 1, "real/sub/z.go": 0}),
     ]
     for c, ob in zip(LINKS, vlib.pmap(run_link, LINKS)):
         ck.count(("links", c[0])); ck.tally("kind", "symlinked-ancestor")
